@@ -146,6 +146,11 @@ def run(m, rep, tier):
     for _n in ('cstl_bintree_swap', 'cstl_rbtree_swap', 'cstl_heap_swap'):
         check_swap_complete(m, _n, _sw)
 
+    # ---- W12: the NDEBUG build does what the assertion build does ---------------------------------
+    from .util import check_assert_effects
+    _ae = rep.rule('W12', 'every store / effectful call made with assertions enabled is also made by the NDEBUG build (no work inside assert())', floor=1)
+    check_assert_effects(m, _ae, ('bintree.c', 'rbtree.c', 'heap.c', 'bintree.h', 'rbtree.h', 'heap.h'))
+
 
 def check_rb_insert_root_black(m, rule, enums):
     black = enums.get('CSTL_RBTREE_COLOR_B')
